@@ -499,13 +499,14 @@ func runCrashScenario(self string, id int, sc crashScenario, rng *rand.Rand) ([]
 				o["reads"] = state
 				o["others_ok"] = bytes.Equal(after["bystander"], []byte("untouched-value"))
 				o["temp_listed"] = false
+				o["follow"] = "next"
 				lines = append(lines, o)
 			}
 			// the device entity must be readable whenever it is listed
 			database, _ := db.NewDatabase(dir)
 			_, eerr := database.Entities()
 			lines = append(lines, J{"ev": "crash", "case": id, "i": 0, "op": sc.Op, "old": sc.Old, "new": sc.New, "point": pname, "k": k, "key": "entities",
-				"killed": killed, "reads": map[bool]string{true: "old", false: "other"}[eerr == nil], "others_ok": true, "temp_listed": false})
+				"killed": killed, "reads": map[bool]string{true: "old", false: "other"}[eerr == nil], "others_ok": true, "temp_listed": false, "follow": "next"})
 			continue
 		}
 		o := J{"ev": "crash", "case": id, "i": 0, "op": sc.Op, "old": sc.Old, "new": sc.New, "point": pname, "k": k, "key": "target", "killed": killed}
@@ -529,6 +530,7 @@ func runCrashScenario(self string, id int, sc crashScenario, rng *rand.Rand) ([]
 			}
 		}
 		o["temp_listed"] = extra
+		o["follow"] = followUps(dir, key, id, k)
 		lines = append(lines, o)
 	}
 	// hook-free variant: the child is killed by strace on entry to each file-system syscall of the operation, so that a
@@ -542,6 +544,26 @@ func runCrashScenario(self string, id int, sc crashScenario, rng *rand.Rand) ([]
 		kills += sk
 	}
 	return lines, kills, nil
+}
+
+// followUps: after the restart the store must still behave like a map for that key (phase "next" of StorageCrash.tla): a
+// short value, then a long one, then a short one again are written to the end by a fresh store and read back by another.
+func followUps(dir, key string, id, k int) string {
+	for n, tok := range []string{"short", "long", "empty", "mid"} {
+		st, err := util.NewFileStorage(dir)
+		if err != nil {
+			return "error: " + err.Error()
+		}
+		v := valueFor(tok, rngFor(int64(id), 100+10*k+n))
+		if err := st.Set(key, v); err != nil {
+			return "error: " + err.Error()
+		}
+		got, has := readAll(dir)[key]
+		if !has || !bytes.Equal(got, v) {
+			return fmt.Sprintf("other: wrote %d bytes (%s), read %d", len(v), tok, len(got))
+		}
+	}
+	return "next"
 }
 
 var crashSyscalls = []string{"openat", "write", "pwrite64", "fsync", "fdatasync", "close", "rename", "renameat", "renameat2", "unlink", "unlinkat", "ftruncate", "link", "linkat"}
@@ -651,6 +673,7 @@ func straceCrashes(self string, id int, sc crashScenario, base string, prepare f
 			}
 		}
 		o["temp_listed"] = extra
+		o["follow"] = followUps(dir, key, id, 1000+j)
 		lines = append(lines, o)
 	}
 	return lines, kills, nil
